@@ -61,3 +61,9 @@ package highlight
 //@ func SimpleHighlighter.BestFragments
 //@   at call Fragment: assert forall i int :: 0 <= i && i < len(termLocationsSameArrayPosition) ==> (termLocationsSameArrayPosition[i] != nil &&
 //@      0 <= termLocationsSameArrayPosition[i].Start && termLocationsSameArrayPosition[i].Start <= termLocationsSameArrayPosition[i].End && termLocationsSameArrayPosition[i].End <= len(orig))
+
+// two fragments overlap exactly when their byte ranges [Start, End) intersect (for non-empty ranges)
+//@ func Fragment.Overlaps(other) (r)
+//@   props C20
+//@   modifies
+//@   ensures [overlap-is-range-intersection] (f.Start < f.End && other.Start < other.End) ==> (r <==> (f.Start < other.End && other.Start < f.End))
